@@ -160,6 +160,11 @@ def trappist(
 
     results: list[BooleanSpace] = []
 
+    if solution_limit is not None and solution_limit <= 0:
+        # The enumeration can only be stopped after a solution is
+        # reported, so a zero limit has to be handled here.
+        return results
+
     def save_result(x: BooleanSpace) -> bool:
         results.append(x)
         if solution_limit is None:
@@ -497,6 +502,11 @@ def compute_fixed_point_reduced_STG(
     """
 
     results: list[BooleanSpace] = []
+
+    if solution_limit is not None and solution_limit <= 0:
+        # The enumeration can only be stopped after a solution is
+        # reported, so a zero limit has to be handled here.
+        return results
 
     def save_result(x: BooleanSpace) -> bool:
         results.append(x)
